@@ -11,6 +11,9 @@ BASE_NOTE = ("Trusted: Lean 4.33 kernel; axioms limited to propext/Classical.cho
              "correspondence harness (model vs /repo on generated inputs) which ties the hand-written model to the code; "
              "the Lean compiler for the driver. ")
 
+HOLD = {}
+
+
 def load_claims():
     """each harness/props/cnn.py may define MANIFEST = dict(text=, design=, note=, technique=[, category=])"""
     import importlib
@@ -25,6 +28,9 @@ def load_claims():
         if "MANIFEST" not in src:
             continue
         mod = importlib.import_module("props." + pid.lower())
+        if getattr(mod, "CLAIM", True) is not True:
+            HOLD[pid] = str(getattr(mod, "CLAIM"))
+            continue
         m = dict(mod.MANIFEST)
         m["note"] = BASE_NOTE + m.get("note", "")
         claims[pid] = m
@@ -68,7 +74,7 @@ def main():
             {"name": "correspondence", "path": "harness/", "serves_properties": sorted(CLAIMS), "kind_free_text": "differential check model vs implementation over a wire protocol; failing-input search"},
         ],
         "checks": checks,
-        "not_applicable": [{"property_id": p, "reason": NOT_YET} for p in ALL if p not in CLAIMS],
+        "not_applicable": [{"property_id": p, "reason": HOLD.get(p, NOT_YET)} for p in ALL if p not in CLAIMS],
         "notes": "See DESIGN.md. Evidence files are written by ./check on every run.",
     }
     with open(os.path.join(VERIF, "MANIFEST.json"), "w") as f:
